@@ -122,6 +122,18 @@ def records_for(inst, seed=0):
                  "nfs": np.asarray(di.native_for_slim).astype(int).tolist(),
                  "uslim": np.asarray(di.unmasked_slim).astype(int).tolist(),
                  "mslim": np.asarray(di.masked_slim).astype(int).tolist()})
+    if len(u) > 1:
+        # history: same Mask2D object, edited in place after its index tables (and edge/border tables) were read
+        di.edge_native, di.border_native
+        k0 = u[len(u) // 2]
+        mask[k0 // w, k0 % w] = True
+        u2 = [x for x in u if x != k0]
+        di2 = mask.derive_indexes
+        recs.append({"p": "C01", "api": "indexes", "h": h, "w": w, "u": u2, "edited_in_place": True,
+                     "nfs": np.asarray(di2.native_for_slim).astype(int).tolist(),
+                     "uslim": np.asarray(di2.unmasked_slim).astype(int).tolist(),
+                     "mslim": np.asarray(di2.masked_slim).astype(int).tolist()})
+        m = np.asarray(mask).astype(bool).copy()
     if h == 1:
         m1 = aa.Mask1D(mask=m[0], pixel_scales=1.0)
         t1 = np.arange(1, w + 1, dtype=float)
